@@ -29,6 +29,12 @@ func (p *P0x8800) ReplyProtocol() consts.JT808CommandType {
 
 func (p *P0x8800) Parse(jtMsg *jt808.JTMessage) error {
 	body := jtMsg.Body
+	if len(body) == 4 { // 收到全部数据包时没有后续字段 Encode在重传列表为空时也只写多媒体ID
+		p.MultimediaID = binary.BigEndian.Uint32(body[0:4])
+		p.AgainPackageCount = 0
+		p.AgainPackageList = nil
+		return nil
+	}
 	if len(body) < 5 {
 		return protocol.ErrBodyLengthInconsistency
 	}
